@@ -21,7 +21,7 @@ Proof.
 Qed.
 
 (* ---- C13: with a concurrency limit l, never more than l items are in flight ---- *)
-Definition limited (c: cfg) (l: nat) := c_lim c = Some l /\ c_term c <> TCollect.
+Definition limited (c: cfg) (l: nat) := c_lim c = Some l /\ has_term c = true.
 Lemma count_app s x : count (set_works s (works s ++ [x])) = count s + (if live x then 1 else 0).
 Proof. unfold count; cbn. rewrite filter_app, app_length. cbn. destruct (live x); cbn; lia. Qed.
 Definition cnt (w: list (nat * wst)) := length (filter live w).
@@ -50,7 +50,7 @@ Lemma push_cnt c s j : cnt (works (push c s j)) = cnt (works s) + 1.
 Proof. rewrite works_push, cnt_app. reflexivity. Qed.
 Lemma limit_ok_lt c l s : limited c l -> limit_ok c s = true -> cnt (works s) < l.
 Proof.
-  intros [Hl Ht] H. unfold limit_ok in H. rewrite Hl in H. destruct (c_term c); try congruence; apply Nat.ltb_lt in H; exact H.
+  intros [Hl Ht] H. unfold limit_ok in H. unfold has_term in Ht. rewrite Hl in H. destruct (c_term c); try discriminate; apply Nat.ltb_lt in H; exact H.
 Qed.
 
 Theorem C13_limit_step c l s e s' : limited c l -> CInv c l s -> step c s e = Some s' -> CInv c l s'.
@@ -76,10 +76,11 @@ Proof.
     destruct (ph s) eqn:Eph; try discriminate.
     all: destruct (find j (works s)) as [y|] eqn:Ef; [|discriminate].
     all: destruct y, stage as [|[|?]]; try discriminate.
-    all: try (destruct (has_term c); inversion Hs; subst; cbn [works set_works upd_st set_ph]; (eapply Nat.le_trans; [eapply cnt_setw_le; [exact Ef | reflexivity]|]); auto; fail).
+    all: try (destruct (has_term c); repeat match type of Hs with (match ?b with _ => _ end) = _ => destruct b; try discriminate end;
+              inversion Hs; subst; cbn [works set_works upd_st set_ph]; (eapply Nat.le_trans; [eapply cnt_setw_le; [exact Ef | reflexivity]|]); auto; fail).
     all: match type of Hs with context[match ph ?S2 with _ => _ end] => set (s2 := S2) in * end.
     all: assert (Hw2 : cnt (works s2) <= l)
-           by (assert (E2 : works s2 = setw j WDone (works s)) by (unfold s2; destruct err; [destruct (c_term c); [reflexivity| |reflexivity]; destruct (residual _); reflexivity|reflexivity]);
+           by (assert (E2 : works s2 = setw j WDone (works s)) by (unfold s2; destruct err; [destruct (c_term c); try reflexivity; destruct (residual _); reflexivity|reflexivity]);
                rewrite E2; (eapply Nat.le_trans; [eapply cnt_setw_le; [exact Ef | reflexivity]|]); auto).
     all: destruct (ph s2); try (inversion Hs; subst; exact Hw2).
     all: destruct (limit_ok c s2) eqn:El; inversion Hs; subst; [rewrite push_cnt; pose proof (limit_ok_lt c l s2 HL El); lia | exact Hw2].
@@ -135,7 +136,8 @@ Proof.
   - destruct (ph s) eqn:Eph; try discriminate.
     all: destruct (find j (works s)) as [y|]; [|discriminate].
     all: destruct y, stage as [|[|?]]; try discriminate.
-    all: try (destruct (has_term c); inversion Hs; subst; cbn [ph residual upd_st set_works]; (try rewrite Eph in HI); rewrite ?Eph; exact HI).
+    all: try (destruct (has_term c); repeat match type of Hs with (match ?b with _ => _ end) = _ => destruct b eqn:?; try discriminate end;
+              inversion Hs; subst; cbn [ph residual upd_st set_works]; (try rewrite Eph in HI); rewrite ?Eph; first [exact HI|intros _; exact I|intros X; congruence]; fail).
     all: match type of Hs with context[match ph ?S2 with _ => _ end] => set (s2 := S2) in * end.
     all: assert (H2 : residual s2 <> None -> match ph s2 with PRun | PBack _ => False | _ => True end).
     all: try (unfold s2; destruct err as [e|]; [destruct (c_term c)|]; cbn [ph residual upd_st set_works];
@@ -177,6 +179,9 @@ Theorem C13_structured c s r s' : step c s (EResult r) = Some s' ->
   | TTryForEach, _ => False
   | TCollect, RVec items => length items = length (works s)
   | TCollect, _ => False
+  | TCollectRes, RVec items => residual s = None /\ length items = length (works s)
+  | TCollectRes, RErrV e => residual s = Some e
+  | TCollectRes, _ => False
   end.
 Proof.
   cbn [step]. destruct (ph s); try discriminate. destruct (c_term c), r; try discriminate.
@@ -186,11 +191,14 @@ Proof.
   - destruct (residual s) as [e'|]; [|discriminate]. destruct (Nat.eqb_spec e e'); [|discriminate]. intros _. congruence.
   - destruct (_ && _) eqn:E; [|discriminate]. intros _. apply andb_true_iff in E as [E _]. apply andb_true_iff in E as [E _]. apply Nat.eqb_eq in E.
     rewrite map_length in E. exact E.
+  - destruct (residual s) as [e'|]; [|discriminate]. destruct (Nat.eqb_spec e e'); [|discriminate]. intros _. congruence.
+  - destruct (residual s); [discriminate|]. destruct (_ && _) eqn:E; [|discriminate]. intros _. apply andb_true_iff in E as [E _]. apply andb_true_iff in E as [E _].
+    apply Nat.eqb_eq in E. rewrite map_length in E. split; [reflexivity|exact E].
 Qed.
 
 (* ---- C14_err_genuine: the error that is reported was delivered by some terminal closure ---- *)
-Definition errs_seen (es: list event) : list nat := flat_map (fun e => match e with EDone 1 _ (Some x) => [x] | _ => [] end) es.
-Lemma residual_step c s x s1 e : step c s x = Some s1 -> residual s1 = Some e -> residual s = Some e \/ exists j, x = EDone 1 j (Some e).
+Definition errs_seen (es: list event) : list nat := flat_map (fun e => match e with EDone _ _ (Some x) => [x] | _ => [] end) es.
+Lemma residual_step c s x s1 e : step c s x = Some s1 -> residual s1 = Some e -> residual s = Some e \/ exists stg j, x = EDone stg j (Some e).
 Proof.
   intros H Hr.
   assert (Hp : forall s0 j, residual (push c s0 j) = residual s0) by (intros; apply push_residual).
@@ -202,12 +210,13 @@ Proof.
       repeat match type of H with (if ?b then _ else _) = _ => destruct b; try discriminate end; inversion H; subst; cbn in Hr; auto.
   - destruct (ph s) eqn:Eph; try discriminate;
       destruct (find j (works s)) as [[| | | |]|]; try discriminate; destruct stage as [|[|?]]; try discriminate;
-      try (destruct (has_term c); inversion H; subst; cbn in Hr; auto; fail);
+      try (destruct (has_term c); repeat match type of H with (match ?b with _ => _ end) = _ => destruct b eqn:?; try discriminate end;
+           inversion H; subst; cbn in Hr; auto; try (left; congruence); try (right; eexists; eexists; f_equal; congruence); fail);
       cbn [set_works upd_st ph residual] in H;
       destruct err as [e0|]; destruct (c_term c) eqn:Et; cbn [residual set_works upd_st] in H;
       try destruct (residual s) eqn:Er; cbn [ph upd_st set_works] in H; rewrite ?Eph in H;
       repeat match type of H with (if ?b then _ else _) = _ => destruct b end; inversion H; subst; rewrite ?Hp in Hr; cbn in Hr; rewrite ?Er in Hr;
-      try (left; assumption); try (left; congruence); try (right; eexists; f_equal; f_equal; congruence); auto.
+      try (left; assumption); try (left; congruence); try (right; eexists; eexists; f_equal; f_equal; congruence); auto.
   - destruct (ph s); try discriminate; destruct (residual s) eqn:Er; try discriminate;
       destruct (find j (works s)) as [[| | | |]|]; try discriminate; destruct stage as [|[|?]]; try discriminate; inversion H; subst; cbn in Hr; auto; try (left; congruence); try (exfalso; congruence).
   - destruct (ph s); try discriminate; try (destruct (residual s) eqn:Er; try discriminate); destruct (find j (works s)) as [[| | | |]|]; try discriminate;
@@ -225,18 +234,19 @@ Proof.
   - inversion Hr; subst. rewrite app_nil_r. auto.
   - destruct (step c s0 x) as [s1|] eqn:Es; [|discriminate].
     assert (H1 : residual s1 = Some e -> In e (seen ++ errs_seen [x])).
-    { intros E1. destruct (residual_step c s0 x s1 e Es E1) as [E0|[j ->]]; [apply in_or_app; left; auto|apply in_or_app; right; cbn; auto]. }
+    { intros E1. destruct (residual_step c s0 x s1 e Es E1) as [E0|(stg & j & ->)]; [apply in_or_app; left; auto|apply in_or_app; right; cbn; auto]. }
     specialize (IH s1 s (S k) e (seen ++ errs_seen [x]) H1 Hr He). rewrite <- app_assoc in IH. replace (x :: es) with ([x] ++ es) by reflexivity. unfold errs_seen in *. rewrite flat_map_app. exact IH.
 Qed.
 (* the error a fallible driver reports is one that a terminal closure actually returned *)
-Theorem C14_err_genuine c es s k e s' : run c (init c) es k = (s, None) -> step c s (EResult (RErrV e)) = Some s' -> c_term c = TTryForEach ->
-  exists j, In (EDone 1 j (Some e)) es.
+Theorem C14_err_genuine c es s k e s' : run c (init c) es k = (s, None) -> step c s (EResult (RErrV e)) = Some s' -> (c_term c = TTryForEach \/ c_term c = TCollectRes) ->
+  exists stg j, In (EDone stg j (Some e)) es.
 Proof.
-  intros Hr Hs Ht. pose proof (C13_structured c s (RErrV e) s' Hs) as X. rewrite Ht in X.
+  intros Hr Hs Ht. pose proof (C13_structured c s (RErrV e) s' Hs) as X.
+  assert (X' : residual s = Some e) by (destruct Ht as [Ht|Ht]; rewrite Ht in X; exact X).
   assert (H0 : residual (init c) = Some e -> In e []) by (unfold init; destruct (c_take c) as [[|t]|]; cbn; discriminate).
-  pose proof (C14_err_seen c es (init c) s k e [] H0 Hr X) as Hin. cbn in Hin.
+  pose proof (C14_err_seen c es (init c) s k e [] H0 Hr X') as Hin. cbn in Hin.
   unfold errs_seen in Hin. apply in_flat_map in Hin as (x & Hx & Hin). destruct x; try contradiction.
-  destruct stage as [|[|?]]; try contradiction. destruct err; [|contradiction]. destruct Hin as [->|[]]. eauto.
+  destruct err; [|contradiction]. destruct Hin as [->|[]]. eauto.
 Qed.
 
 (* ---- C15 ---- *)
@@ -420,7 +430,8 @@ Proof.
   - (* closure done *)
     destruct (ph s) eqn:Eph; try discriminate;
       destruct (find j (works s)) as [[| | | |]|] eqn:Ef; try discriminate; destruct stage as [|[|?]]; try discriminate.
-    all: try (destruct (has_term c); injection Hs as <-; (eapply (H_setw s); [exact HI|exact Ef|reflexivity|reflexivity|reflexivity|left; cbn; congruence|cbn; tauto])).
+    all: try (destruct (has_term c); repeat match type of Hs with (match ?b with _ => _ end) = _ => destruct b eqn:?; try discriminate end; injection Hs as <-;
+              (eapply (H_setw s); [exact HI|exact Ef|reflexivity|reflexivity|reflexivity|first [left; cbn; congruence|right; apply no_back_flush; discriminate]|cbn; tauto]); fail).
     (* the terminal closure's future resolved *)
     all: cbv zeta in Hs.
     all: set (s1 := set_works s (setw j WDone (works s))) in *.
@@ -488,7 +499,8 @@ Proof.
       repeat match type of H with (if ?b then _ else _) = _ => destruct b; try discriminate end; injection H as <-; split; cbn; rewrite ?Eph; auto; try discriminate.
   - destruct (ph s) eqn:Eph; try discriminate;
       destruct (find j (works s)) as [[| | | |]|] eqn:Ef; try discriminate; destruct stage as [|[|?]]; try discriminate.
-    all: try (destruct (has_term c); injection H as <-; split; cbn; rewrite ?Eph; auto; discriminate).
+    all: try (destruct (has_term c); repeat match type of H with (match ?b with _ => _ end) = _ => destruct b eqn:?; try discriminate end; injection H as <-;
+              split; cbn; rewrite ?Eph; auto; try discriminate; try (intros _; right; discriminate); fail).
     all: cbv zeta in H.
     all: set (s1 := set_works s (setw j WDone (works s))) in *.
     all: assert (I1 : FInv c s1) by (split; cbn; rewrite ?Eph; auto; try discriminate).
